@@ -239,4 +239,9 @@ def cases(tier, seed=0):
             if tier == "thorough":
                 for semi in (("Sx", "Sy"),) if not kind.startswith("identity") else (("Sx",),):
                     out.append(density_case(f"{tr}_{kind}", 2, 2, extra=(2, 2), semi=semi, timeout=1200))
+    # heteroscedastic conditionals conditioned on x (A square, and A wide: see known findings)
+    from .c17 import coherence_case
+    for link, signs in (("exp", None), ("cosh", None), ("step", [1]), ("relu", [1])):
+        for (Dx, Dy, Da, Dk) in ((1, 1, 1, 1), (2, 2, 2, 1), (1, 1, 2, 1)):
+            out.append(coherence_case(link, Dx, Dy, Da, Dk, signs=signs, prop=PROP))
     return out
